@@ -1,6 +1,7 @@
 /-
 Driver for C05.  Request line (fields separated by single spaces, `E=` is last):
-  H=<heap> STEPS=<step>|<step>|... E=<expr tokens separated by spaces>
+  LEX=<0|1> H=<heap> STEPS=<step>|<step>|... E=<expr tokens separated by spaces>
+LEX  : 1 = the live tree has F05c repaired (callee sees its closure only); chosen by the harness's probe
 heap : `loc:tz;loc:tz;...` (tz `n` = none), `_` = empty           (caller's xs:dateTime objects)
 step : `<tz>#<name>:<val>,<name>:<val>,...`  (`_` = no variables); val = items joined by `.`:
        `i<int>` integer, `r<k>` reference to heap object k, `e` the empty sequence
@@ -9,7 +10,7 @@ expr : prefix code —  I n | V x | E | S a b | P e | A a b (+) | M a b (-) | Q 
        | N k p1..pk b (inline function) | C0 f | C f args
 Answer: one record per step joined by `|`:
   m=<model result> s=<spec result> env=<1 if the model hands back the caller's dict unchanged>
-  heap=<caller's objects after the step> ws=<1 if WS true (dom ρ) e, i.e. outside trigger F05c>
+  heap=<caller's objects after the step> ws=<1 if WS lex true (dom ρ) e, i.e. outside trigger F05c>
   p=<result of the model of the PINNED tree (Quirks.pinned) in the same history>
 results: items joined by `,` — i<int> b<0|1> d<loc>@<tz|n> u<seconds> f<arity> ; `()` empty; ERR:<kind>
 -/
@@ -115,18 +116,20 @@ def answer (line : String) : String :=
     | none => "bad-steps"
     | some steps =>
       let etoks := (((line.splitOn " E=").getD 1 "").splitOn " ").filter (· ≠ "")
+      let lex := field fs "LEX" == "1"
+      let q : Quirks := ⟨true, true, lex⟩
       match parseE etoks with
       | some (e, []) =>
         let pinnedOuts := (runHistory .pinned fuel e steps h0).1
         let (_, recs) := (steps.zip pinnedOuts).foldl (fun (st : Heap × List String) (sp : Step × Out) =>
           let (h, recs) := st
           let (s, pout) := sp
-          let r := eval ⟨.fixed, s.tz⟩ fuel e s.ρ h
+          let r := eval ⟨q, s.tz⟩ fuel e s.ρ h
           let (m, envok, h') := match r with
             | .ok (v, ρ', h') => (Out.ok (obs h' v), envSame h' ρ' s.ρ, h')
             | .error er => (Out.err er, true, h)
           let sp := semOut s.tz h0 fuel e s.ρ
-          let ws := WS true (dom s.ρ) e
+          let ws := WS lex true (dom s.ρ) e
           (h', recs ++ [s!"m={showOut m} s={showOut sp} env={if envok then 1 else 0} heap={showHeap h'} ws={if ws then 1 else 0} p={showOut pout}"]))
           (h0, [])
         "|".intercalate recs
